@@ -112,6 +112,38 @@ def collection_programs(tier):
     return out
 
 
+ICLOSE_BODIES = [
+    'try { EXIT } catch (e) { print("caught", msg(e)) }',
+    'try { for (const c of it("C", "MODE2")) { EXIT } } catch (e) { print("caught", msg(e)) }',
+    'for (let i = 0; i < 1; i++) { let z = () => i; try { EXIT } catch (e) { print("caught", msg(e), z()) } }',
+    'try { try { EXIT } finally { print("fin") } } catch (e) { print("caught", msg(e)) }',
+    'L: { try { EXIT } catch (e) { print("caught", msg(e)) } }',
+    'switch (1) { case 1: try { EXIT } catch (e) { print("caught", msg(e)) } }',
+    'for (const c of it("C", "MODE2")) { for (let i = 0; i < 1; i++) { let z = () => i; EXIT } }',
+]
+ICLOSE_EXITS = ['return 1', 'break', 'continue', 'break OUT', 'continue OUT', 'throw new Error("x")']
+ICLOSE_CTX = ['function f() { LOOP return 2 } try { print("ret", f()) } catch (e) { print("threw", msg(e)) }',
+              'function* f() { yield 0; LOOP return 2 } try { for (var v of f()) print("y", v) } catch (e) { print("threw", msg(e)) }',
+              'async function f() { await 0; LOOP return 2 } f().then(v => print("ret", v), e => print("threw", msg(e)));']
+
+
+def iterclose_programs():
+    """Leaving a for-of loop (return / break / continue / throw, also to an outer label) from inside try/catch, nested loops and scopes, where the
+    iterator's `return` method throws, returns a primitive or behaves: the close protocol runs inside the statements being left."""
+    pre = ('function msg(e) { return e && (e.name == "Error" ? e.message : e.name) }\n'
+           'function it(name, mode) { var n = 0; return {[Symbol.iterator]() { return this }, next() { return {value: n, done: n++ > 2} }, '
+           'return() { print(name + ".return"); if (mode == "throw") throw new Error(name); if (mode == "prim") return 1; return {} } } }\n')
+    out = []
+    for body in ICLOSE_BODIES:
+        for ex in ICLOSE_EXITS:
+            for mode in ("ok", "throw", "prim"):
+                for mode2 in (("ok", "throw", "prim") if "MODE2" in body else ("ok",)):
+                    loop = 'OUT: for (const b of it("B", "%s")) { %s }' % (mode, body.replace("EXIT", ex).replace("MODE2", mode2))
+                    for ctx in ICLOSE_CTX:
+                        out.append(pre + ctx.replace("LOOP", loop))
+    return out
+
+
 def run(chk):
     tier = chk.tier
     L, K = (4, 4) if tier == "thorough" else (3, 3)
@@ -128,7 +160,8 @@ def run(chk):
     if tier == "thorough":
         # arrays: every ordered pair of mutations inside one callback
         host += hostile_programs(pairs=True)
-    host += coll
+    iclose = iterclose_programs()
+    host += coll + iclose
     lim = {"loop": 5000, "rec": 400}
     jobs = [{"i": i, "src": p, "cfg": lim} for i, (_, _, p) in enumerate(nests)] + [{"i": len(nests) + i, "src": p, "cfg": lim} for i, p in enumerate(host)]
     pairs = [(a, b) for a in POOL for b in POOL]
@@ -150,7 +183,7 @@ def run(chk):
         if not core.is_bad(r["completion"]) and not r["completion"].startswith(("EarlySyntaxError", "Limit")):
             deepest[name] = max(deepest.get(name, 0), n)
     chk.part("nesting", constructs=len(NEST), depths="1..64", deepest_depth_evaluated=deepest)
-    chk.part("hostile", programs=len(host), iterators=len(ITERATORS), mutations=len(MUTATIONS), collection_programs=len(coll), collection_iterations=len(COLL_ITERS), collection_mutations=len(COLL_MUTS),
+    chk.part("hostile", programs=len(host), iterators=len(ITERATORS), mutations=len(MUTATIONS), collection_programs=len(coll), iterator_close_programs=len(iclose), collection_iterations=len(COLL_ITERS), collection_mutations=len(COLL_MUTS),
              mutation_sequences_per_callback="arrays 1 (thorough: <= 2), Map/Set <= 2 (thorough: <= 3)")
     chk.part("reuse", ordered_pairs=len(pairs), pool=len(POOL))
     for kind, src, detail, rep in bad:
